@@ -990,6 +990,43 @@ pub fn exec_wop(world: &mut World, op: &WOp, u: u32)
             let after = world.get_entity(e).is_ok();
             log(Ev::RcScratch { uid: u, mid, after });
         }
+        WOp::ReactorBulk(n, mode) if *mode >= 2 =>
+        {
+            // "strip" variants: the watched entity loses all its components (`clear()` / `retain::<()>()`) -- the library's
+            // private despawn tracker with them -- while it lives, and is really despawned afterwards. The reactors are
+            // outside the instance tables, so their runs are hidden from the trace (the generator puts a collection and a poll
+            // in front: nothing else is pending) and counted here.
+            use std::sync::atomic::{AtomicU32, Ordering};
+            #[cfg(ukoehb_bevy_cobweb_verif)]
+            bevy_cobweb::verif::set_runner_hook(None);
+            let before = world.entities().len();
+            let runs = Arc::new(AtomicU32::new(0));
+            let scratch = world.spawn_empty().id();
+            let mut scs: Vec<SystemCommand> = Vec::new();
+            if mode % 2 == 0
+            {
+                for _ in 0..*n { let r = runs.clone(); scs.push(world.spawn_system_command(move || { r.fetch_add(1, Ordering::Relaxed); })); }
+                world.react(|rc| { for sc in &scs { rc.with(despawn(scratch), *sc, ReactorMode::Cleanup); } });
+            }
+            else
+            {
+                world.react(|rc| { for _ in 0..*n { let r = runs.clone(); let t = rc.once(despawn(scratch), move || { r.fetch_add(1, Ordering::Relaxed); }); scs.push(SystemCommand::from(t)); } });
+            }
+            if u % 2 == 0 { world.entity_mut(scratch).clear(); } else { world.entity_mut(scratch).retain::<()>(); }
+            schedule_removal_and_despawn_reactors(world);
+            let early = runs.load(Ordering::Relaxed);
+            world.despawn(scratch);
+            schedule_removal_and_despawn_reactors(world);
+            garbage_collect_entities(world);
+            world.flush();
+            let leaked = scs.iter().filter(|sc| world.get_entity(***sc).is_ok()).count() as u32;
+            let extra = world.entities().len().saturating_sub(before);
+            for sc in &scs { if world.get_entity(**sc).is_ok() { world.despawn(**sc); } }
+            #[cfg(ukoehb_bevy_cobweb_verif)]
+            bevy_cobweb::verif::set_runner_hook(Some(runner_hook));
+            let _ = early;
+            log(Ev::ReactorBulk { uid: u, n: *n as u32, leaked: leaked.max(extra), runs: runs.load(Ordering::Relaxed) });
+        }
         WOp::ReactorBulk(n, mode) =>
         {
             let scratch = world.spawn_empty().id();
@@ -1008,7 +1045,7 @@ pub fn exec_wop(world: &mut World, op: &WOp, u: u32)
             world.flush();
             let leaked = scs.iter().filter(|sc| world.get_entity(***sc).is_ok()).count() as u32;
             if world.get_entity(scratch).is_ok() { world.despawn(scratch); }
-            log(Ev::ReactorBulk { uid: u, n: *n as u32, leaked });
+            log(Ev::ReactorBulk { uid: u, n: *n as u32, leaked, runs: 0 });
         }
         WOp::DropInstSig(i) => { let sig = world.resource_mut::<H>().inst_sigs.get_mut(*i as usize).and_then(|s| s.take()); drop(sig); }
         WOp::SysEvent(i, p) =>
